@@ -204,8 +204,14 @@ func parseSubstvar(input *input, relation *Relation) error {
 			return errors.New("Oh no. Reached EOF before substvar finished")
 		case '}':
 			input.Next()
-			relation.Possibilities = append(relation.Possibilities, *ret)
-			return nil
+			eatWhitespace(input)
+			switch peek := input.Peek(); peek {
+			case ',', '|', 0: /* a substvar stands alone */
+				relation.Possibilities = append(relation.Possibilities, *ret)
+				return nil
+			default:
+				return fmt.Errorf("Trailing garbage after a substvar: %c", peek)
+			}
 		}
 		ret.Name += string([]byte{input.Next()})
 	}
